@@ -89,3 +89,15 @@ func TestUnsupportedStatementElementsRefused(t *testing.T) {
 		t.Errorf("a plain statement with Version, Id and Sid is refused: %v", err)
 	}
 }
+
+// s3:GetBucketObjectLockConfiguration is the action GET ?object-lock is authorized with, but it was missing from the table
+// of known actions: a policy naming it was refused as "invalid action" (it could only be granted through a wildcard).
+func TestEveryActionTheGatewayChecksCanBeNamedInAPolicy(t *testing.T) {
+	iam := auth.NewIAMServiceSingle(auth.Account{Access: "root"})
+	for _, a := range []auth.Action{auth.GetBucketObjectLockConfigurationAction, auth.PutBucketObjectLockConfigurationAction, auth.GetBucketAclAction, auth.ListBucketAction} {
+		doc := `{"Statement":[{"Effect":"Allow","Principal":"*","Action":"` + string(a) + `","Resource":"arn:aws:s3:::bkt"}]}`
+		if err := auth.ValidatePolicyDocument([]byte(doc), "bkt", iam); err != nil {
+			t.Errorf("%s: refused on put: %v", a, err)
+		}
+	}
+}
